@@ -17,7 +17,7 @@ PLAN = dict(
     tiers=dict(
         quick=[det("rel", H, "cs-rel", 16, 150, 5, tso=True, time_cap=22),
                det("dbg", H, "cs-dbg", 16, 70, 5, tso=True, time_cap=14),
-               tsan("C10", 4, 80)],
+               tsan("C10", 8, 240)],
         thorough=[det("rel", H, "cs-rel", 16, 1800, 6, tso=True, time_cap=280),
                   det("dbg", H, "cs-dbg", 16, 600, 6, tso=True, time_cap=160),
                   det("enum-conflict", H, "cs-rel", 16, 60, 2, tso=True, time_cap=90, enum="conflict", enum_cap=150),
